@@ -6,9 +6,9 @@ import props
 V = os.path.dirname(os.path.dirname(os.path.abspath(__file__)))
 
 LEVEL = {
- "C01": ("proof", "Theorems (Coq, axiom-free) that the byte ranges pushed by the field splitter cut every non-empty record, for every non-empty literal delimiter (self-overlapping ones included), into exactly the leftmost non-overlapping fields whose concatenation with the delimiter is the record. Trim, -p, -g, -r and the output loop are the executable model itself; model and code are compared on every run (general path and fast lane, debug and release builds)."),
+ "C01": ("proof", "Theorems (Coq, axiom-free): (1) the byte ranges pushed by the field splitter cut every non-empty record, for every non-empty literal delimiter (self-overlapping included), into exactly the leftmost non-overlapping fields; (2) for a one-byte delimiter and plain options (any bounds list, format text, fallbacks, -j, -r R) a record's output is exactly, per bound in request order, its fields joined by the (replacement) delimiter, the delimiter after every bound but the last only under -j/-r, then the EOL. Trim, -p, -g and multi-byte delimiters in the output loop are the executable model; C11/C12/C16 prove their value-blindness, index-safety and tiling. Model and code are compared on every run (general path and fast lane, debug and release)."),
  "C02": ("proof", "Theorem C02_fast_lane_equals_general_path: for every fast-eligible option set, every bounds list the parser can build and every input, the model of the fast lane and the model of the general path give the same stdout, status and completed records (early stop, fake end-of-line start, -s, trim, fallbacks included). Tied to the code by running both library entry points and the binary against the models, plus the pair oracle on the implementation."),
- "C03": ("proof", "PARTIAL. Proved: the reference path is well defined, chunking is irrelevant (C04), empty records and the per-field emission rule. Not proved: equality of -M and line mode on every record; that is checked on every run by the correspondence of both paths with their models and by the pair oracle on the implementation."),
+ "C03": ("proof", "Theorem C03_fixed_memory_equals_line_mode (Coq, axiom-free): for every option set -M accepts, every bounds list built from parsed bounds, and every input on whose records each closed range is wholly present or wholly absent, the model of -M gives exactly the stdout, status and completed records of the model of the same invocation without -M (empty records, empty first/last fields, final record without EOL included); the static part of the domain is proved to follow from -M's own eligibility test. Tied to the code by correspondence of both paths and by the pair oracle (-M vs no -M) on the implementation, incl. inputs straddling the 64 KiB buffer."),
  "C04": ("proof", "Theorem C04_segmentation_independence: for every -M option set, every input and every two segmentations into non-empty reads, the model writes the same bytes and ends with the same status; the side condition holds for every parsed bounds list. Tied to the code through a BufRead double serving prescribed segmentations (all segmentations of short inputs) and through a read(2) shim on the real binary."),
  "C05": ("proof", "Proved: both line algorithms index exactly the same list of lines for every non-empty input (one trailing EOL is not a line), and the buffered algorithm's fields are those lines byte for byte. The walk over the bounds is the executable model, compared with the code on every run, plus the forward-vs-buffered pair oracle."),
  "C06": ("proof", "Theorem C06_byte_mode_exact: for every input, every resolvable bounds list and any format text the model prints exactly the bytes at the selected positions in request order and nothing else; empty input gives empty output."),
